@@ -746,7 +746,7 @@ pub fn generate(rng: &mut Rng, tier: Tier, emit: &mut dyn FnMut(String)) {
     }
     // pplan: a real Session with a scripted in-order policy pages through the mock cluster; the Lean driver runs
     // `pagerPlan` on the (node, shard) targets of every page (real time: a few cases)
-    for i in 0..(if quick { 10 } else { 60 }) {
+    for i in 0..(if quick { 24 } else { 100 }) {
         let n = 2 + rng.below(3) as usize;
         let sh = *rng.pick(&[0u64, 0, 2, 3]);
         let mut nodes: Vec<usize> = (0..n).collect();
